@@ -29,6 +29,8 @@ import (
 	"syscall"
 	"time"
 
+	deadlock "github.com/sasha-s/go-deadlock"
+
 	"github.com/ARM-software/golang-utils/utils/logs"
 	"github.com/ARM-software/golang-utils/utils/subprocess"
 	commandUtils "github.com/ARM-software/golang-utils/utils/subprocess/command"
@@ -920,6 +922,10 @@ func key(sc scenario) string { b, _ := json.Marshal(sc); return string(b) }
 
 func main() {
 	r := h.Init("C05")
+	// The library's mutexes are go-deadlock mutexes, which terminate the PROCESS (os.Exit(2)) when a lock has been awaited
+	// for 30 s. Blocked calls are exactly what this harness provokes and observes (on a changed tree many at once, under
+	// load): the time-based detection is switched off so that the harness survives to report them and to clean up.
+	deadlock.Opts.DeadlockTimeout = 0
 	r.Imports = []string{"GU.C05.Model", "GU.C05.Gen"}
 	r.CheckFn = "(check_case gen_facts)" // the model instantiated with the facts regenerated from the source
 	r.Rule("real process trees (sh): shapes = chains/fans up to depth 3, any node TERM-ignoring / not holding the pipes / leaving the group / exiting before its children; " +
